@@ -111,6 +111,25 @@ def main(ctx: Ctx):
                     list(w.results_iter())
                 chain.append((seen_init, w.user_state))
                 state = w.user_state
+            # the last value assigned in the child is a falsy one: it is a value like any other
+            if kind != 'thread':
+                for last in (None, 0, [], ''):
+                    sess.write_conf(None)
+                    w3 = cls(TG.t_sclear, init_state={'cache': [1, 2, 3]}, args=[last], **kw)
+                    if persistent:
+                        w3.enqueue(last)
+                    watchdog(lambda: w3.wait(10), 20)
+                    if persistent:
+                        list(w3.results_iter())
+                    final = w3.user_state
+                    ctx.case(('falsy-final-state', prog, repr(last)), True, sample={'case': 'child assigns a falsy value last', 'prog': prog, 'assigned': repr(last), 'parent_sees': repr(final)} if last is None else None)
+                    if final != last or (last is None and final is not None):
+                        ctx.fail(f'final-state-not-synchronised:{kind}:falsy', f'{prog}: started with a dict as state, the work assigned {last!r} last; after the end the parent sees {final!r}',
+                                 {'prog': prog, 'scenario': 'falsy-final-state', 'assigned': repr(last)})
+                    try:
+                        w3.terminate(1)
+                    except Exception:
+                        pass
             # restart of a *busy* persistent worker: goes through terminate(); the state assigned so far must survive
             if persistent and kind != 'thread':
                 sess.write_conf(None)
